@@ -102,7 +102,38 @@ def obligations(tier):
             n = 7
             obs.append(Ob(f"shared-timeframe T2/T2, A carries {extra_a}, gapped stream: A={spec_name(('ind', a, akw))} B={spec_name(('ind', b, bkw))}/n={n}",
                           dict(A=[a, dict(akw, timeframe="T2", **extra_a)], B=[b, dict(bkw, timeframe="T2")], n=n, gap=True), CFG, weight=60, budget_s=900))
+    # members handed over as configuration dicts that SHARE a nested object (one 'args' dict reused for two analysis
+    # members, each adding its own keyword): what one member is told must not leak into the other
+    for (fa, ka), (fb, kb), common in ((("rising", dict(length=2)), ("falling", dict(length=3)), dict(indicator="close")), (("highest", dict(length=3)), ("lowest", dict(length=2)), dict(indicator="high")),
+                                      (("mean_rising", dict(length=2)), ("rising", dict(length=3)), dict(indicator="low")), (("value_range", dict(length=3)), ("highest", dict(length=2)), dict(indicator="close"))):
+        obs.append(Ob(f"shared-args-dict: A={fa}{ka} B={fb}{kb} args={common}/n=6", dict(A=[fa, ka], B=[fb, kb], common=common, n=6), CFG, fn="run_shared_config", weight=30, budget_s=600))
     return obs
+
+
+def run_shared_config(ctx, P):
+    _, _, Candle, _, Hexital = lib()
+    (fa, ka), (fb, kb), n = P["A"], P["B"], P["n"]
+    cs = mk_candles(ctx, n)
+    refs = {}
+    for f, k in ((fa, ka), (fb, kb)):
+        alone = Hexital("alone", clone(cs), [dict(analysis=f, args=dict(P["common"]), **k)])
+        alone.calculate()
+        nm = list(alone.indicators)[0]
+        refs[nm] = alone.indicator(nm).as_list()
+    ctx.observe("alone", refs)
+    if not ctx.require("distinct-names", len(refs) == 2, f"{list(refs)}"):
+        return
+    for order in ("A-first", "B-first"):
+        common = dict(P["common"])
+        A, B = dict(analysis=fa, args=common, **ka), dict(analysis=fb, args=common, **kb)
+        hx = Hexital("hx", clone(cs)[: n - 1], [A, B] if order == "A-first" else [B, A])
+        hx.calculate()
+        hx.append(clone(cs)[n - 1])
+        for nm, ref in refs.items():
+            ctx.equal(f"{nm} next to a member configured with the same args dict ({order})", hx.reading_as_list(nm), ref)
+        hx.recalculate()
+        for nm, ref in refs.items():
+            ctx.equal(f"{nm} after recalculate ({order})", hx.reading_as_list(nm), ref)
 
 
 def own(ctx, ind, alone_snapshot):
